@@ -1,7 +1,7 @@
 SPECIFICATION Spec
 CONSTANTS
   Alphabet <- Alpha7
-  MaxLen = 7
+  MaxLen = 6
   History = TRUE
 VIEW View
 INVARIANT ConcatInv
